@@ -144,7 +144,7 @@ func c29AliasTopos(family []*netsim.Topo, thorough bool) []*netsim.Topo {
 	for _, tp := range append([]*netsim.Topo{own}, family...) {
 		for mi, m := range modes {
 			if !thorough && tp != own && mi > 0 {
-				break // quick: family members with the low-byte alias only
+				break // quick: family members with the bit-8 alias (equal low byte) only
 			}
 			if c := c29AliasIfIDs(tp, m); c != nil {
 				out = append(out, c)
